@@ -188,10 +188,12 @@ struct Scenario {
 	pre2: Vec<usize>,
 	/// thorough tier only
 	thorough_only: bool,
+	/// quick tier: every second crash point
+	half: bool,
 }
 
 fn sc(name: &'static str, pre: &[usize], kind: &'static str, input: &[usize]) -> Scenario {
-	Scenario { name, pre: pre.to_vec(), pre_headers: vec![], compact_pre: false, kind, input: input.to_vec(), followup: vec![], second: false, sub: "", pre2: vec![], thorough_only: false }
+	Scenario { name, pre: pre.to_vec(), pre_headers: vec![], compact_pre: false, kind, input: input.to_vec(), followup: vec![], second: false, sub: "", pre2: vec![], thorough_only: false, half: false }
 }
 
 /// LMDB commits carry no file name: qualify them by the last file step before them
@@ -283,7 +285,12 @@ fn evaluate(cx: &Ctx, dir: &str) -> Eval {
 	let rec_labels = qualify(verif_hooks::take_log());
 	let verdict = match opened {
 		Err(p) => format!("open=panic:{}", p.chars().take(60).collect::<String>()),
-		Ok(Err(e)) => format!("open=err:{}", error_class(&e)),
+		Ok(Err(e)) => {
+			if std::env::var("VERIF_CRASH_DEBUG").is_ok() {
+				eprintln!("open error in {}: {:?}", dir, e);
+			}
+			format!("open=err:{}", error_class(&e))
+		}
 		Ok(Ok(c)) => {
 			let s = snap(&c, kit);
 			let head_ok = cx.allowed.contains(&s.head);
@@ -320,8 +327,21 @@ fn evaluate(cx: &Ctx, dir: &str) -> Eval {
 			let u: Vec<String> = s.utxo.iter().map(|i| format!("o{}", i)).collect();
 			// byte-level oracle: a node that ends in the uninterrupted logical state must hold the
 			// uninterrupted node's MMR files, byte for byte
+			drop(c);
+			// a node whose full validation fails (or, thorough tier, any node) is stopped and started
+			// once more: the state the recovery left must at least open again
+			let again = if val != "ok" || tier_thorough() {
+				let g2 = kit.genesis.clone();
+				let d3 = db_root.clone();
+				match catch(move || init_chain(&d3, g2).map(|_| ())) {
+					Ok(Ok(_)) => " again=ok".to_string(),
+					Ok(Err(e)) => format!(" again=err:{}", error_class(&e)),
+					Err(_) => " again=panic".to_string(),
+				}
+			} else {
+				String::new()
+			};
 			let files = if same {
-				drop(c);
 				let mine = mmr_files(&db_root);
 				let mut bad = vec![];
 				for (k, v) in &cx.ref_files {
@@ -341,7 +361,7 @@ fn evaluate(cx: &Ctx, dir: &str) -> Eval {
 				"-".to_string()
 			};
 			format!(
-				"open=ok head={} head_allowed={} validate={} utxo=[{}] redeliver={} files={} final={}",
+				"open=ok head={} head_allowed={} validate={} utxo=[{}] redeliver={} files={} final={}{}",
 				s.head,
 				head_ok,
 				val,
@@ -360,7 +380,8 @@ fn evaluate(cx: &Ctx, dir: &str) -> Eval {
 						if after.roots == new_.roots { "same".to_string() } else { format!("{}!={}", after.roots, new_.roots) },
 						if after.utxo == new_.utxo { "same".to_string() } else { format!("{}vs{}", after.utxo.len(), new_.utxo.len()) }
 					) + &format!(" followup={:?}:{}/{} want={:?}:{}/{}", fu, after_fu.head, after_fu.hhead, cx.ref_followup, cx.ref_after_followup.0, cx.ref_after_followup.1)
-				}
+				},
+				again
 			)
 		}
 	};
@@ -461,7 +482,7 @@ fn run_scenario(kit: &Kit, sc: &Scenario, work: &str, exe: &Path, gen_path: &str
 	}
 	let ids: Vec<String> = sc.input.iter().map(|i| format!("b{}", i)).collect();
 	out.push(format!(
-		"crash scenario {} kind={} input={} => {} steps={} old={} new={} oldhh={} newhh={}",
+		"crash scenario {} kind={} input={} => {} steps={} old={} new={} oldhh={} newhh={}{}",
 		sc.name,
 		sc.kind,
 		if ids.is_empty() { "-".to_string() } else { ids.join(",") },
@@ -470,7 +491,8 @@ fn run_scenario(kit: &Kit, sc: &Scenario, work: &str, exe: &Path, gen_path: &str
 		old.head,
 		new_.head,
 		old.hhead,
-		new_.hhead
+		new_.hhead,
+		if sc.compact_pre && sc.kind == "compact" { format!(" compacted_at={}", sc.pre.len()) } else { String::new() }
 	));
 	out.push(format!("crash steps {} {}", sc.name, labels.join(",")));
 	// ancestors of the old and new head (allowed heads after recovery)
@@ -528,6 +550,12 @@ fn run_scenario(kit: &Kit, sc: &Scenario, work: &str, exe: &Path, gen_path: &str
 			tot.skipped += 1;
 			continue;
 		}
+		// quick tier, scenarios that repeat the step list of another scenario from a different base
+		// state (orphan chain, block after its header): every second of the remaining points
+		if !thorough && sc.half && (n as u64 + seed) % 2 != 0 {
+			tot.skipped += 1;
+			continue;
+		}
 		tot.points += 1;
 		let dir = format!("{}/{}-c{}", work, sc.name, n);
 		copy_dir(Path::new(&base), Path::new(&dir));
@@ -573,8 +601,8 @@ fn run_scenario(kit: &Kit, sc: &Scenario, work: &str, exe: &Path, gen_path: &str
 		let ms: Vec<usize> = (1..=ev.rec_labels.len())
 			.filter(|m| thorough || state_changing(&ev.rec_labels[*m - 1]))
 			.collect();
-		// at most 4 (quick) / 48 (thorough) second crash points per class, a seed-dependent selection
-		let cap = if thorough { 48 } else { 4 };
+		// at most 3 (quick) / 48 (thorough) second crash points per class, a seed-dependent selection
+		let cap = if thorough { 48 } else { 3 };
 		let ms: Vec<usize> = if ms.len() <= cap {
 			ms
 		} else {
@@ -875,10 +903,10 @@ fn main() {
 			"plain-extension",
 			"reorg-with-spends",
 			"reset-head",
-			"compaction-then-block",
 			"state-sync-install",
 		]
 		.contains(&s.name);
+		s.half = ["orphan-chain", "block-after-header"].contains(&s.name);
 	}
 	scenarios.retain(|s| thorough || !s.thorough_only);
 	if let Some(only) = &only {
@@ -893,7 +921,7 @@ fn main() {
 
 	// ---- the scenarios, several at a time, each in a forked process of its own (the crash-point
 	// counter and log of the hooks are per process); output in scenario order ----
-	let jobs: usize = std::env::var("VERIF_CRASH_JOBS").ok().and_then(|v| v.parse().ok()).unwrap_or(6).max(1);
+	let jobs: usize = std::env::var("VERIF_CRASH_JOBS").ok().and_then(|v| v.parse().ok()).unwrap_or(8).max(1);
 	let mut running: Vec<(usize, libc::pid_t)> = vec![];
 	let mut next = 0usize;
 	let mut failed_children = vec![];
